@@ -81,6 +81,10 @@ Proof. vm_compute. repeat split; reflexivity. Qed.
 
 Lemma content_sanitizers_ok_ok : content_sanitizers_ok = true. Proof. vm_compute. reflexivity. Qed.
 
+Lemma special_elements_ok_ok : special_elements_ok = true. Proof. vm_compute. reflexivity. Qed.
+Lemma special_elements_text_bodies : forall e, In e GenTemplate.T_specialElements -> mem_bytes e text_body_elements = true.
+Proof. pose proof special_elements_ok_ok as H. unfold special_elements_ok in H. rewrite forallb_forall in H. exact H. Qed.
+
 Lemma content_name_cases n : content_name_ok n = true ->
   n = B "_sanitizeHTML" \/ n = B "_sanitizeRCDATA" \/ n = B "_sanitizeScript" \/ n = B "_sanitizeStyleSheet".
 Proof.
